@@ -49,6 +49,23 @@ func maxSlope(stops []Stop16) float64 {
 	return m
 }
 
+// localSlope is the steepest channel slope among the segments that meet [t-delta, t+delta].
+func localSlope(stops []Stop16, t, delta float64) float64 {
+	m := 0.0
+	for i := 1; i < len(stops); i++ {
+		if stops[i].Offset < t-delta || stops[i-1].Offset > t+delta {
+			continue
+		}
+		w := stops[i].Offset - stops[i-1].Offset
+		for _, d := range []float64{stops[i].R - stops[i-1].R, stops[i].G - stops[i-1].G, stops[i].B - stops[i-1].B, stops[i].A - stops[i-1].A} {
+			if s := math.Abs(d) / w; s > m {
+				m = s
+			}
+		}
+	}
+	return m
+}
+
 // GradientCandidates returns the colours the statement allows for a gradient
 // evaluated at offset o known to within +-delta: the spread function is applied
 // with an interval, so a discontinuity inside the interval admits either side.
@@ -61,11 +78,11 @@ func GradientCandidates(stops []Stop16, spread uint8, o, delta float64) []Candid
 // discontinuity the offset lies (0 when the offset is known exactly), delta
 // bounds the rounding of the offset for the colour tolerance.
 func GradientCandidates2(stops []Stop16, spread uint8, o, disc, delta float64) []Candidate {
-	slope := maxSlope(stops)
-	tol := 1 + 1e-6 + 2*slope*delta
 	at := func(t float64, why string) Candidate {
 		r, g, b, a := colourAt(stops, t)
-		return Candidate{r, g, b, a, tol, why}
+		// the steepest segment the offset can lie in, given its rounding bound (a hard edge
+		// elsewhere in the gradient does not loosen the verdict here)
+		return Candidate{r, g, b, a, 1 + 1e-6 + 2*localSlope(stops, t, delta)*delta, why}
 	}
 	transparent := Candidate{0, 0, 0, 0, 0, "transparent (spread none, outside [0,1])"}
 	lo, hi := o-disc, o+disc
@@ -81,10 +98,7 @@ func GradientCandidates2(stops []Stop16, spread uint8, o, disc, delta float64) [
 	case 1: // pad
 		out = append(out, at(math.Min(1, math.Max(0, o)), "pad"))
 	case 2: // reflect: triangle wave of period 2 (continuous)
-		r := math.Mod(o, 2)
-		if r < 0 {
-			r += 2
-		}
+		r := math.Mod(math.Abs(o), 2) // the wave is even: no 2 - tiny, which would round to 2
 		if r > 1 {
 			r = 2 - r
 		}
